@@ -734,3 +734,67 @@ impl TxPool {
         }
     }
 }
+
+#[cfg(ckb_verif)]
+impl TxPool {
+    /// Verification hook: read-only JSON dump of entries (status, own weight, all ancestor /
+    /// descendant aggregates, timestamp, direct links), edges, counters and the snapshot tip.
+    pub(crate) fn verif_dump(&self) -> String {
+        use serde_json::json;
+        let pm = &self.pool_map;
+        let name = |id: &ProposalShortId| -> String {
+            pm.get_by_id(id)
+                .map(|e| format!("{:x}", e.inner.transaction().hash()))
+                .unwrap_or_else(|| format!("?{:?}", id))
+        };
+        let names = |ids: Option<&HashSet<ProposalShortId>>| -> Vec<String> {
+            let mut v: Vec<String> = ids.map(|s| s.iter().map(&name).collect()).unwrap_or_default();
+            v.sort();
+            v
+        };
+        let mut entries = Vec::new();
+        for e in pm.iter() {
+            let i = &e.inner;
+            entries.push(json!({
+                "hash": format!("{:x}", i.transaction().hash()),
+                "status": e.status.to_string(),
+                "fee": i.fee.as_u64(), "size": i.size, "cycles": i.cycles, "timestamp": i.timestamp,
+                "anc": [i.ancestors_count as u64, i.ancestors_size as u64, i.ancestors_cycles, i.ancestors_fee.as_u64()],
+                "desc": [i.descendants_count as u64, i.descendants_size as u64, i.descendants_cycles, i.descendants_fee.as_u64()],
+                "has_links": pm.links.inner.contains_key(&e.id),
+                "parents": names(pm.links.get_parents(&e.id)),
+                "children": names(pm.links.get_children(&e.id)),
+            }));
+        }
+        let stray_links: Vec<String> = pm
+            .links
+            .inner
+            .keys()
+            .filter(|id| pm.get_by_id(id).is_none())
+            .map(|id| format!("{:?}", id))
+            .collect();
+        let op = |o: &OutPoint| -> serde_json::Value {
+            let idx: u32 = ckb_types::prelude::Unpack::unpack(&o.index());
+            json!([format!("{:x}", o.tx_hash()), idx])
+        };
+        let inputs: Vec<_> = pm.edges.inputs.iter().map(|(o, id)| json!([op(o), name(id)])).collect();
+        let deps: Vec<_> = pm.edges.deps.iter().map(|(o, ids)| json!([op(o), names(Some(ids))])).collect();
+        let header_deps: Vec<_> = pm
+            .edges
+            .header_deps
+            .iter()
+            .map(|(id, hs)| json!([name(id), hs.iter().map(|h| format!("{:x}", h)).collect::<Vec<_>>()]))
+            .collect();
+        json!({
+            "tip": format!("{:x}", self.snapshot.tip_hash()),
+            "tip_number": self.snapshot.tip_number(),
+            "entries": entries,
+            "stray_links": stray_links,
+            "inputs": inputs, "deps": deps, "header_deps": header_deps,
+            "total_tx_size": pm.total_tx_size, "total_tx_cycles": pm.total_tx_cycles,
+            "pending_count": pm.pending_count, "gap_count": pm.gap_count, "proposed_count": pm.proposed_count,
+            "conflicts_cache": self.conflicts_cache.iter().map(|(_, tx)| format!("{:x}", tx.hash())).collect::<Vec<_>>(),
+        })
+        .to_string()
+    }
+}
